@@ -222,7 +222,13 @@ def run(ctx):
                necessary="a bind message redirected to itext without a registered id is dangling")
     MSG = {"absent": None, "text": "Plain", "text+ref": "Bad ${q0}", "dict": {"en": "M"}}
     se = repo.cls("pyxform.survey_element:SurveyElement")
-    for qtype, (cn, cv), (rn, rv), (nn, nv) in itertools.product(("text", "calculate"), MSG.items(), MSG.items(), MSG.items()):
+    KIND_CLS = {"text": qcls, "calculate": qcls, "group": repo.cls("pyxform.section:GroupedSection"), "repeat": repo.cls("pyxform.section:RepeatingSection"),
+                "osm without tags": repo.cls("pyxform.question:OsmUploadQuestion"), "select one": repo.cls("pyxform.question:MultipleChoiceQuestion")}
+    combos = list(itertools.product(("text", "calculate"), MSG.items(), MSG.items(), MSG.items()))
+    # the other element kinds that carry a bind (groups / repeats with relevance and messages, osm and select questions):
+    # constraint x required messages, noAppErrorString absent
+    combos += [(k_, c_, r_, ("absent", None)) for k_ in ("group", "repeat", "osm without tags", "select one") for c_ in MSG.items() for r_ in MSG.items()]
+    for qtype, (cn, cv), (rn, rv), (nn, nv) in combos:
         bind = {"type": "string"}
         if qtype == "calculate":
             bind["calculate"] = "1 + 1"  # a row without a body control still has a bind that carries the messages
@@ -233,7 +239,14 @@ def run(ctx):
         if nv is not None:
             bind["jr:noAppErrorString"] = nv
         desc = f"{qtype}: constraintMsg={cn} requiredMsg={rn} noAppErrorString={nn}"
-        q = _mk(ctx, qcls, "q1", label="L" if qtype == "text" else None, type=qtype, bind=bind, control={"tag": "input"})
+        extra_kw = {}
+        if qtype in ("group", "repeat"):
+            extra_kw = {"children": []}
+        elif qtype == "osm without tags":
+            extra_kw = {"children": None}
+        elif qtype == "select one":
+            extra_kw = {"itemset": "l", "list_name": "l", "choices": None, "choice_filter": None, "parameters": None}
+        q = _mk(ctx, KIND_CLS[qtype], "q1", label="L" if qtype != "calculate" else None, type=("osm" if qtype.startswith("osm") else qtype), bind=bind, control={"tag": "input"}, **extra_kw)
         xp = {"q1": "/data/q1", "data": "/data"}
         s = survey_obj([q])
         it = ctx.interp("C07.R2b", hooks=_hooks(xp))
@@ -247,6 +260,21 @@ def run(ctx):
         ids, tr = registered(s, xp)
         r2b.check(em <= ids, f"bind[{desc}]", "every message itext id emitted on the bind is registered", "pyxform/survey_element.py",
                   why_fail=f"emitted {sorted(em)} registered {sorted(ids)}")
+        # an unsuffixed message that needs itext (it contains a reference) belongs to the survey's default language,
+        # whatever that language is called
+        if any(isinstance(v, str) and "${" in v for v in (cv, rv)):  # (a plain noAppErrorString is never redirected to itext)
+            s_en = survey_obj([q], default_language="English (en)")
+            try:
+                _ids_en, tr_en = registered(s_en, xp)
+                langs_en = set(tr_en.keys())
+                want_langs = {"English (en)"} | ({"en"} if any(isinstance(v, dict) for v in (cv, rv, nv)) else set())
+                r2b.check(langs_en <= want_langs and "English (en)" in langs_en, f"bind[{desc}]:default language",
+                          "with default_language='English (en)' the unsuffixed message is filed under that language", "pyxform/survey_element.py",
+                          why_fail=f"languages registered: {sorted(langs_en)}")
+            except Raised as r:
+                r2b.fail(f"bind[{desc}]:default language", f"registrars evaluate ({r.exc_name}{r.exc_args})", "pyxform/survey.py")
+            finally:
+                q.attrs["parent"] = s
         # non-vacuity: a translated message (per-language dict) can only be shown through itext, so it must emit a reference
         n_dict = sum(1 for v in (cv, rv, nv) if isinstance(v, dict))
         if n_dict:
@@ -457,7 +485,9 @@ def run(ctx):
     # the in-line items of a search() select: redirect, then build the control, with the atom false and true.  Every
     # jr:itext reference an item label carries must be a registered id (none is registered when the atom is false).
     for atom in (False, True):
-        opts_s = tuple(_mk(ctx, ocls, f"o{i}", label=({"en": f"L{i}"} if atom else f"L{i}"), media=None) for i in range(2))
+        # (with itext: one choice has per-language labels, the other a plain label plus an image - the list as a whole is shown through itext)
+        opts_s = (_mk(ctx, ocls, "o0", label=({"en": "L0", "fr": "M0"} if atom else "L0"), media=None),
+                  _mk(ctx, ocls, "o1", label="L1", media=({"image": "x.png"} if atom else None)))
         iset_s = Obj(icls, {"name": "ls", "options": opts_s, "requires_itext": atom, "used_by_search": False}, name="itemset_s")
         so_s = survey_obj([], choices={"ls": iset_s})
         el_s = _mk(ctx, mq, "s1", control={"appearance": "search('x')"}, itemset="ls", choices=iset_s, list_name="ls", type="select one", bind={"type": "string"},
@@ -476,7 +506,7 @@ def run(ctx):
             refs_s, labels, err = [], [], f"raises {e.exc_name}{e.exc_args}"
         ids_s, _tr_s = registered(so_s, {"data": "/data"})
         dangling = [r_ for r_ in refs_s if r_.replace("jr:itext('", "").replace("')", "") not in ids_s]
-        r1.check(err is None and len(labels) == 2 and not dangling and (bool(refs_s) == atom), f"search() in-line items[requires_itext={atom}]",
+        r1.check(err is None and len(labels) == 2 and not dangling and (len(refs_s) == (2 if atom else 0)), f"search() in-line items[requires_itext={atom}]",
                  "item labels reference itext exactly when the list's texts are registered; otherwise the label text is written in-line", mb.loc(),
                  why_fail=err or f"label refs {refs_s} registered ids {sorted(ids_s)}")
     rules.append(r1)
